@@ -278,7 +278,9 @@ def c05(r):
         if zr < c["Zmin"] - eps or zr > c["Zmax"] + eps:
             out.append(V("C05", "zroot-range", r, t, "rooting depth outside [Zmin, Zmax]", z=zr, zmin=c["Zmin"], zmax=c["Zmax"]))
         zgw = r.flux[t, F_ZGW]
-        if ctx["water_table"] == 1 and zgw >= 0 and zr > max(zgw, c["Zmin"]) + eps:
+        # (a table shallower than the minimum rooting depth is the property's stated exception: the roots are then at
+        # least at their minimum depth, below the table)
+        if ctx["water_table"] == 1 and zgw >= c["Zmin"] and zr > zgw + eps:
             out.append(V("C05", "zroot-below-table", r, t, "roots below the water table", z=zr, zgw=zgw))
         if g[G_HI] > c["HI0"] + eps:
             out.append(V("C05", "hi-gt-hi0", r, t, "harvest index exceeds reference", hi=g[G_HI], hi0=c["HI0"]))
@@ -406,6 +408,14 @@ def c06(r):
 def c07(r):
     """independent date-arithmetic model of the expected sequence of simulated days"""
     out = []
+    if r.error is not None and r.days and len(r.error) > 2 and str(r.error[2]).split(":")[0] in (
+            "timestep/update_time.py", "timestep/check_if_model_is_finished.py", "core.py"):
+        # initialisation succeeded and a later step fails inside the clock / stepping machinery itself (not in a
+        # process of the day, which is C16's matter): the run does not terminate as the property says it always does
+        out.append(V("C07", "stepping-raises-in-clock", r, int(r.days[-1]["t"]) + 1,
+                     "the run raises in the time-stepping machinery instead of terminating at the last harvest or on the day before the end date",
+                     error=list(r.error)))
+        return out
     if r.ctx is None or r.flux is None or r.error is not None:
         return out
     ctx = r.ctx
